@@ -27,6 +27,8 @@ class Result:
         self.wall = 0.0
         self.fork_sites = {}
         self.rest = []
+        self.forks = 0
+        self.reexec = 0
 
 
 def shape_value(shape):
@@ -34,9 +36,12 @@ def shape_value(shape):
     return Agg([Agg(p)])
 
 
-def run_one(prog, models, root, shape, prefix=(), concrete=None, stats=None, trace_calls=False, sample_every=0, expect_panic=False):
+def run_one(prog, models, root, shape, prefix=(), concrete=None, stats=None, trace_calls=False, sample_every=0, expect_panic=False, sample_model=False, ctx_hook=None):
     ctx = PathCtx(prefix, concrete=concrete, stats=stats, sample_every=sample_every)
     I = Interp(prog, ctx, models)
+    ctx.interp = I
+    if ctx_hook is not None:
+        ctx_hook(ctx)
     I.trace_calls = trace_calls
     iid = prog.roots.get(root)
     if iid is None:
@@ -56,6 +61,9 @@ def run_one(prog, models, root, shape, prefix=(), concrete=None, stats=None, tra
         outcome = ('unsupported', '%s (in %s)' % (e, where))
     except RecursionError:
         outcome = ('unsupported', 'python recursion limit')
+    if outcome[0] == 'ok' and sample_model:
+        ctx.sample_model = ctx.any_model_values()
+    ctx.close()
     return outcome, ctx, I
 
 
@@ -73,7 +81,7 @@ def explore(prog, root, shape, max_paths=100000, max_seconds=600, models=None, s
                 res.budget_exhausted = True
             break
         prefix = work.pop()
-        outcome, ctx, I = run_one(prog, models, root, shape, prefix, stats=res.stats, sample_every=sample_every)
+        outcome, ctx, I = run_one(prog, models, root, shape, prefix, stats=res.stats, sample_every=sample_every, sample_model=len(res.samples) < keep_samples)
         res.paths += 1
         res.steps += I.steps
         res.max_steps = max(res.max_steps, I.steps)
@@ -92,7 +100,7 @@ def explore(prog, root, shape, max_paths=100000, max_seconds=600, models=None, s
                 res.nontrivial += 1
             if len(res.samples) < keep_samples:
                 res.samples.append({'decisions': len(ctx.trace), 'forks': ctx.nsym_decisions,
-                                    'model': ctx.any_model_values(), 'checks': list(ctx.checks_reached)})
+                                    'model': getattr(ctx, 'sample_model', None), 'checks': list(ctx.checks_reached)})
         elif kind == 'end':
             res.infeasible += 1
         elif kind == 'cex':
